@@ -64,6 +64,9 @@ class Env:
             "it2": iteration.Engine(name="it2"),
             "sq": sql.Engine(name="sq"),
         }
+        import operator
+        for k, eng in self.engines.items():  # engine-specific functions ("efn" nodes): only the declared kind implements them
+            eng.functions[exprsem.EFN["sq" if k == "sq" else "it"]] = operator.neg
         self.leaves = {}  # name -> real relation
         self.tables = {}  # name -> Tab
         self.bind = {}  # "$name" -> SymInt | int
@@ -80,7 +83,7 @@ class Env:
 
     # -- leaves -------------------------------------------------------------
     def add_iter_leaf(self, name, cols, rows, engine="it1", kind="seq", min_rows=None, max_rows="exact",
-                      payload=None):
+                      payload=None, messages=None):
         """rows: list of dict colname -> value (SymInt/int).  Registers real leaf + oracle table."""
         from lsst.daf.relation import LeafRelation, iteration
 
@@ -93,7 +96,9 @@ class Env:
                 key = tuple(t for t in tags)
                 payload = iteration.RowMapping(key, {tuple(r[t] for t in key): r for r in real_rows})
         eng = self.engines[engine]
-        if min_rows is None and max_rows == "exact":
+        if messages is not None:
+            rel = eng.make_leaf(frozenset(tags), payload=payload, name=name, messages=messages)
+        elif min_rows is None and max_rows == "exact":
             rel = eng.make_leaf(frozenset(tags), payload=payload, name=name)
         else:
             rel = LeafRelation(eng, frozenset(tags), payload, name=name,
@@ -148,6 +153,21 @@ def _opts_kw(env, opts):
 
 def lib_expr(env, e):
     return exprsem.lib_of_ast(e, env.tags, env.val)
+
+
+def expression_history(env, *nodes):
+    """Earlier history in the same engines (same process): expressions that compare equal to sub-expressions of the
+    programs (same function name and arguments) but were declared with other engine restrictions are built and asked which
+    engines support them.  Anything the library remembers per *equal* expression is remembered before the tree under test
+    is built."""
+    for node in nodes:
+        for tw in exprsem.restricted_twins(node):
+            try:
+                obj = exprsem.lib_of_ast(tw, env.tags, env.val)
+                for eng in env.engines.values():
+                    obj.is_supported_by(eng)
+            except Exception:  # noqa: BLE001 - the earlier objects are not the subject
+                pass
 
 
 def build(node, env, memo=None):
@@ -577,7 +597,8 @@ def py_of_lib(e, row):
     if isinstance(e, ColumnReference):
         return row[e.tag.qualified_name]
     if isinstance(e, (ColumnFunction, PredicateFunction)):
-        return getattr(operator, e.name)(*[py_of_lib(a, row) for a in e.args])
+        name = "__neg__" if e.name in exprsem.EFN.values() else e.name
+        return getattr(operator, name)(*[py_of_lib(a, row) for a in e.args])
     if isinstance(e, PredicateLiteral):
         return bool(e.value)
     if isinstance(e, PredicateReference):
